@@ -461,8 +461,20 @@ func cmdProp(args []string) int {
 		if o.Canary {
 			continue
 		}
-		if o.Status == "sat" {
-			handleFailure(name, o, owner[name], false)
+		// a call-site / statement-site clause speaks about EVERY matching call or statement: a further
+		// instance (suffix #k) of a clause that is claimed is part of the claim, not a new obligation
+		universal := false
+		if o.Kind == "callsite" || o.Kind == "site" {
+			if i := strings.LastIndex(name, "#"); i > 0 {
+				if _, err := strconv.Atoi(name[i+1:]); err == nil {
+					if _, ok := base.Claimed[name[:i]]; ok {
+						universal = true
+					}
+				}
+			}
+		}
+		if o.Status == "sat" || universal {
+			handleFailure(name, o, owner[name], universal)
 		} else {
 			undecidedNew = append(undecidedNew, name)
 		}
